@@ -2,6 +2,7 @@ import PGM.Generated.GraphicalModelQG
 import PGM.Proofs.GMQSynth
 import PGM.Proofs.GMQSynthTable
 import PGM.Proofs.GMQRng
+import PGM.Proofs.GMQSynthRound
 import PGM.Properties.C11B
 import PGM.Properties.C11
 /-!
@@ -186,6 +187,154 @@ example : ∀ s : List Attr, ((fun (s : List Attr) => s.reverse) s).Perm s := fu
 
 end table
 
+/-! ## table level, ROUNDING mode: no per-slice hypothesis
+
+`Proofs/GMQSynthRound.lean` + `Proofs/GMQSupport.lean` (the support induction: a group key occurs only if its conditional slice has
+positive mass) discharge `hlen`.  What remains are hypotheses about the CHAIN of projected tables: `chainWF` (every conditional step
+has an earlier step whose clique contains its conditioning attributes — what the junction tree gives; evaluated on every replay by
+the C11 check), `margConsistent` (the tables `self.project` returns are marginals of one table of mass `S > 0` — C02
+`gen_project_correct`), and nonnegative entries. -/
+section round
+variable {G : Type}
+
+/-- **the generated `synthetic_data`, rounding mode**: the frame is `Synth.synthTable` on `genSpecs` for ADMISSIBLE outcome lists
+(`outsOK`: every group's histogram passes the verified `colOK`), under the numpy contracts -/
+theorem gen_synth_round (project : List Attr → Factor Rat) (set_order : List Attr → List Attr)
+    (groupby : GMQ.DF → List Attr → List (List Nat × List Nat))
+    (cr cnr : G → Nat → Nat → List Rat → List Nat × G) (sh : G → List Nat → List Nat × G) (hr : RngOK cr cnr sh)
+    (domain : Dom) (cliques : List JT.Clique) (elimination_order : List Attr) (total : Rat)
+    (rows : Option Nat) (method : String) (hm : method ≠ "sample") (g : G)
+    (hgb : GroupbyOK groupby) (hnd : elimination_order.Nodup) (hne : elimination_order ≠ [])
+    (hsub : ∀ a ∈ elimination_order, a ∈ domain.attrs) (hso : ∀ s, (set_order s).Perm s)
+    (parent : Nat → Nat) (S : Rat) (hS : 0 < S)
+    (hch : chainWF (genSpecs project set_order domain cliques elimination_order) parent = true)
+    (hcons : margConsistent (genSpecs project set_order domain cliques elimination_order) parent S = true)
+    (hnn : ∀ sp ∈ genSpecs project set_order domain cliques elimination_order, ∀ k, ∀ c ∈ sp.cond k, (0 : Rat) ≤ c) :
+    let N := match rows with | none => (Rat.floor total).toNat | some r => r
+    let F := (GMQ.syntheticFrame project set_order groupby cr cnr sh domain cliques elimination_order total rows method g).1
+    F.cols = domain.attrs ∧
+    ∃ outs : List (List (List Nat)),
+      F.rows = synthTable domain.attrs.length N (genSpecs project set_order domain cliques elimination_order) outs ∧
+      specsWF domain.attrs.length [] (genSpecs project set_order domain cliques elimination_order) = true ∧
+      outsOK domain.attrs.length N (genSpecs project set_order domain cliques elimination_order) outs
+        (List.replicate N (List.replicate domain.attrs.length 0)) = true :=
+  syntheticFrame_round project set_order groupby cr cnr sh hr domain cliques elimination_order total rows method hm g
+    hgb hnd hne hsub hso parent S hS hch hcons hnn
+
+/-- C11B `synthTable_length`: exactly the requested number of rows, by default the integer part of the total -/
+theorem gen_synth_length_round (project : List Attr → Factor Rat) (set_order : List Attr → List Attr)
+    (groupby : GMQ.DF → List Attr → List (List Nat × List Nat))
+    (cr cnr : G → Nat → Nat → List Rat → List Nat × G) (sh : G → List Nat → List Nat × G) (hr : RngOK cr cnr sh)
+    (domain : Dom) (cliques : List JT.Clique) (elimination_order : List Attr) (total : Rat)
+    (rows : Option Nat) (method : String) (hm : method ≠ "sample") (g : G)
+    (hgb : GroupbyOK groupby) (hnd : elimination_order.Nodup) (hne : elimination_order ≠ [])
+    (hsub : ∀ a ∈ elimination_order, a ∈ domain.attrs) (hso : ∀ s, (set_order s).Perm s)
+    (parent : Nat → Nat) (S : Rat) (hS : 0 < S)
+    (hch : chainWF (genSpecs project set_order domain cliques elimination_order) parent = true)
+    (hcons : margConsistent (genSpecs project set_order domain cliques elimination_order) parent S = true)
+    (hnn : ∀ sp ∈ genSpecs project set_order domain cliques elimination_order, ∀ k, ∀ c ∈ sp.cond k, (0 : Rat) ≤ c) :
+    (GMQ.syntheticFrame project set_order groupby cr cnr sh domain cliques elimination_order total rows method g).1.rows.length
+      = (match rows with | none => (Rat.floor total).toNat | some r => r) := by
+  obtain ⟨_, outs, h, _⟩ := gen_synth_round project set_order groupby cr cnr sh hr domain cliques elimination_order total rows
+    method hm g hgb hnd hne hsub hso parent S hS hch hcons hnn
+  rw [h]
+  exact C11.synthTable_length _ _ _ _
+
+/-- C11B `synthTable_in_domain` for the GENERATED code: **every value inside its attribute's domain** (the size of the axis of the
+projected table) -/
+theorem gen_synth_in_domain (project : List Attr → Factor Rat) (set_order : List Attr → List Attr)
+    (groupby : GMQ.DF → List Attr → List (List Nat × List Nat))
+    (cr cnr : G → Nat → Nat → List Rat → List Nat × G) (sh : G → List Nat → List Nat × G) (hr : RngOK cr cnr sh)
+    (domain : Dom) (cliques : List JT.Clique) (elimination_order : List Attr) (total : Rat)
+    (rows : Option Nat) (method : String) (hm : method ≠ "sample") (g : G)
+    (hgb : GroupbyOK groupby) (hnd : elimination_order.Nodup) (hne : elimination_order ≠ [])
+    (hsub : ∀ a ∈ elimination_order, a ∈ domain.attrs) (hso : ∀ s, (set_order s).Perm s)
+    (parent : Nat → Nat) (S : Rat) (hS : 0 < S)
+    (hch : chainWF (genSpecs project set_order domain cliques elimination_order) parent = true)
+    (hcons : margConsistent (genSpecs project set_order domain cliques elimination_order) parent S = true)
+    (hnn : ∀ sp ∈ genSpecs project set_order domain cliques elimination_order, ∀ k, ∀ c ∈ sp.cond k, (0 : Rat) ≤ c) :
+    ∀ r ∈ (GMQ.syntheticFrame project set_order groupby cr cnr sh domain cliques elimination_order total rows method g).1.rows,
+      ∀ sp ∈ genSpecs project set_order domain cliques elimination_order, r.getD sp.col 0 < sp.size := by
+  obtain ⟨_, outs, h, hwf, hok⟩ := gen_synth_round project set_order groupby cr cnr sh hr domain cliques elimination_order total rows
+    method hm g hgb hnd hne hsub hso parent S hS hch hcons hnn
+  rw [h]
+  exact C11.synthTable_in_domain _ _ _ outs hwf hok
+
+/-- C11B `synthTable_support` for the GENERATED code: **no record in a cell to which the model gives zero probability** -/
+theorem gen_synth_support (project : List Attr → Factor Rat) (set_order : List Attr → List Attr)
+    (groupby : GMQ.DF → List Attr → List (List Nat × List Nat))
+    (cr cnr : G → Nat → Nat → List Rat → List Nat × G) (sh : G → List Nat → List Nat × G) (hr : RngOK cr cnr sh)
+    (domain : Dom) (cliques : List JT.Clique) (elimination_order : List Attr) (total : Rat)
+    (rows : Option Nat) (method : String) (hm : method ≠ "sample") (g : G)
+    (hgb : GroupbyOK groupby) (hnd : elimination_order.Nodup) (hne : elimination_order ≠ [])
+    (hsub : ∀ a ∈ elimination_order, a ∈ domain.attrs) (hso : ∀ s, (set_order s).Perm s)
+    (parent : Nat → Nat) (S : Rat) (hS : 0 < S)
+    (hch : chainWF (genSpecs project set_order domain cliques elimination_order) parent = true)
+    (hcons : margConsistent (genSpecs project set_order domain cliques elimination_order) parent S = true)
+    (hnn : ∀ sp ∈ genSpecs project set_order domain cliques elimination_order, ∀ k, ∀ c ∈ sp.cond k, (0 : Rat) ≤ c)
+    (sp : ColSpec) (hsp : sp ∈ genSpecs project set_order domain cliques elimination_order) (key : List Nat) (v : Nat)
+    (hz : (sp.cond key).getD v 0 = 0) :
+    cellCount (sp.proj ++ [sp.col]) (key ++ [v])
+      (GMQ.syntheticFrame project set_order groupby cr cnr sh domain cliques elimination_order total rows method g).1.rows = 0 := by
+  obtain ⟨_, outs, h, hwf, hok⟩ := gen_synth_round project set_order groupby cr cnr sh hr domain cliques elimination_order total rows
+    method hm g hgb hnd hne hsub hso parent S hS hch hcons hnn
+  rw [h]
+  exact C11.synthTable_support _ _ _ outs hwf hok sp hsp key v hz
+
+/-- C11B `synthTable_clique_error` for the GENERATED code: **the count of every cell of every model clique visited by the loop differs
+from the chain-rule target by at most `errBound`, which does not mention the number of rows** -/
+theorem gen_synth_clique_error (project : List Attr → Factor Rat) (set_order : List Attr → List Attr)
+    (groupby : GMQ.DF → List Attr → List (List Nat × List Nat))
+    (cr cnr : G → Nat → Nat → List Rat → List Nat × G) (sh : G → List Nat → List Nat × G) (hr : RngOK cr cnr sh)
+    (domain : Dom) (cliques : List JT.Clique) (elimination_order : List Attr) (total : Rat)
+    (rows : Option Nat) (method : String) (hm : method ≠ "sample") (g : G)
+    (hgb : GroupbyOK groupby) (hnd : elimination_order.Nodup) (hne : elimination_order ≠ [])
+    (hsub : ∀ a ∈ elimination_order, a ∈ domain.attrs) (hso : ∀ s, (set_order s).Perm s)
+    (parent : Nat → Nat) (S : Rat) (hS : 0 < S)
+    (hch : chainWF (genSpecs project set_order domain cliques elimination_order) parent = true)
+    (hcons : margConsistent (genSpecs project set_order domain cliques elimination_order) parent S = true)
+    (hnn : ∀ sp ∈ genSpecs project set_order domain cliques elimination_order, ∀ k, ∀ c ∈ sp.cond k, (0 : Rat) ≤ c)
+    (k : Nat) (hk : k < (genSpecs project set_order domain cliques elimination_order).length) (key : List Nat) (v : Nat)
+    (hg : key.length = (specAt (genSpecs project set_order domain cliques elimination_order) k).proj.length) :
+    let specs := genSpecs project set_order domain cliques elimination_order
+    let N := match rows with | none => (Rat.floor total).toNat | some r => r
+    |((cellCount ((specAt specs k).proj ++ [(specAt specs k).col]) (key ++ [v])
+          (GMQ.syntheticFrame project set_order groupby cr cnr sh domain cliques elimination_order total rows method g).1.rows
+          : Nat) : Rat) - target specs parent N k key v| ≤ (errBound specs parent k : Rat) := by
+  intro specs N
+  obtain ⟨_, outs, h, hwf, hok⟩ := gen_synth_round project set_order groupby cr cnr sh hr domain cliques elimination_order total rows
+    method hm g hgb hnd hne hsub hso parent S hS hch hcons hnn
+  rw [h]
+  exact C11.synthTable_clique_error _ _ _ outs parent hwf hok hch hnn k hk key v hg
+
+/-- … and the targets are the model's expected counts `N · μ / S` (C11B `synthTable_clique_error_marginal`) -/
+theorem gen_synth_clique_error_marginal (project : List Attr → Factor Rat) (set_order : List Attr → List Attr)
+    (groupby : GMQ.DF → List Attr → List (List Nat × List Nat))
+    (cr cnr : G → Nat → Nat → List Rat → List Nat × G) (sh : G → List Nat → List Nat × G) (hr : RngOK cr cnr sh)
+    (domain : Dom) (cliques : List JT.Clique) (elimination_order : List Attr) (total : Rat)
+    (rows : Option Nat) (method : String) (hm : method ≠ "sample") (g : G)
+    (hgb : GroupbyOK groupby) (hnd : elimination_order.Nodup) (hne : elimination_order ≠ [])
+    (hsub : ∀ a ∈ elimination_order, a ∈ domain.attrs) (hso : ∀ s, (set_order s).Perm s)
+    (parent : Nat → Nat) (S : Rat) (hS : 0 < S)
+    (hch : chainWF (genSpecs project set_order domain cliques elimination_order) parent = true)
+    (hcons : margConsistent (genSpecs project set_order domain cliques elimination_order) parent S = true)
+    (hnn : ∀ sp ∈ genSpecs project set_order domain cliques elimination_order, ∀ k, ∀ c ∈ sp.cond k, (0 : Rat) ≤ c)
+    (k : Nat) (hk : k < (genSpecs project set_order domain cliques elimination_order).length) (key : List Nat)
+    (hg : key ∈ tuplesOver (attrSize (genSpecs project set_order domain cliques elimination_order))
+      (specAt (genSpecs project set_order domain cliques elimination_order) k).proj) (v : Nat) :
+    let specs := genSpecs project set_order domain cliques elimination_order
+    let N := match rows with | none => (Rat.floor total).toNat | some r => r
+    |((cellCount ((specAt specs k).proj ++ [(specAt specs k).col]) (key ++ [v])
+          (GMQ.syntheticFrame project set_order groupby cr cnr sh domain cliques elimination_order total rows method g).1.rows
+          : Nat) : Rat) - ((N : Nat) : Rat) / S * mu specs k key v| ≤ (errBound specs parent k : Rat) := by
+  intro specs N
+  obtain ⟨_, outs, h, hwf, hok⟩ := gen_synth_round project set_order groupby cr cnr sh hr domain cliques elimination_order total rows
+    method hm g hgb hnd hne hsub hso parent S hS hch hcons hnn
+  rw [h]
+  exact C11.synthTable_clique_error_marginal _ _ _ outs parent S hwf hok hch hcons hnn k hk key hg v
+
+end round
+
 /-! ## the contracts are satisfiable: a deterministic generator, and the generated code computes -/
 section examples
 
@@ -208,6 +357,30 @@ example := gen_col_sample detR detNR detSh detRngOK [1, 1, 2] 5 () exCountsOK
 example (project : List Attr → Factor Rat) :=
   gen_syntheticFrame_sample project (fun s => s) groupbySpec detR detNR detSh detRngOK [("a", 2), ("b", 3)] [["a", "b"]] ["b", "a"] 7
     none () groupbyOK_spec (by decide) (by decide) (by decide) (by decide) (fun s => List.Perm.refl s)
+
+/-! ### the rounding-mode table theorems are not vacuous: a two-attribute model, five records -/
+
+/-- `self.project` of a model over (a, b) with mass 4: `μ_a = [2, 2]`, `μ_ab = [[1, 1], [0, 2]]` (the cell a = 1, b = 0 is empty) -/
+def exProject (as : List Attr) : Factor Rat :=
+  if as = ["a"] then ⟨[("a", 2)], ⟨[2], #[2, 2]⟩⟩ else ⟨[("a", 2), ("b", 2)], ⟨[2, 2], #[1, 1, 0, 2]⟩⟩
+
+def exDomain : Dom := [("a", 2), ("b", 2)]
+
+theorem exChain : chainWF (genSpecs exProject (fun s => s) exDomain [["a", "b"]] ["b", "a"]) (fun k => k - 1) = true := by
+  decide +kernel
+
+theorem exCons : margConsistent (genSpecs exProject (fun s => s) exDomain [["a", "b"]] ["b", "a"]) (fun k => k - 1) 4 = true := by
+  decide +kernel
+
+theorem exEntries : ∀ as, ∀ x ∈ (exProject as).vals.data.toList, (0 : Rat) ≤ x := by
+  intro as x hx
+  unfold exProject at hx
+  split at hx <;> simp at hx <;> rcases hx with rfl | rfl | rfl | rfl <;> norm_num
+
+/-- all hypotheses of `gen_synth_round` / `gen_synth_in_domain` / `gen_synth_support` / `gen_synth_clique_error` hold here -/
+example := gen_synth_round exProject (fun s => s) groupbySpec detR detNR detSh detRngOK exDomain [["a", "b"]] ["b", "a"] 5 none "round"
+  (by decide) () groupbyOK_spec (by decide) (by decide) (by decide) (fun s => List.Perm.refl s) (fun k => k - 1) 4 (by norm_num)
+  exChain exCons (hnn_of_entries exProject _ exDomain _ _ exEntries)
 
 /-- five records over `[1, 1, 2]`: targets `1.25, 1.25, 2.5`, floors `1, 1, 2`, one extra to the first positive fraction -/
 example : (GMQ.syntheticCol detR detNR detSh "round" [1, 1, 2] 5 ()).1 = [0, 0, 1, 2, 2] := by decide +kernel
